@@ -3,6 +3,7 @@ From Coq Require Import List Arith Bool ZArith Permutation String.
 From KV Require Import Base.Sx Gen.Generated Model.LazyInit Proofs.LazyInitP Model.TaskGraph Proofs.TaskGraphP
                        Model.Guarded Proofs.GuardedP Model.SharedSites Proofs.SharedSitesP Model.LockOrder Proofs.LockOrderP Proofs.ReqProgP
                        Model.PerCall Proofs.PerCallP.
+From KV Require Model.ScratchRace Proofs.ScratchRaceP Model.GuardTest Proofs.GuardTestP.
 Import ListNotations.
 Close Scope Z_scope.
 Open Scope nat_scope.
@@ -559,3 +560,93 @@ Theorem C20_retry_budget_example :
   p_next (r_pool (b_r (bc_st c))) = 2.
 Proof. exact budget_example. Qed.
 Print Assumptions C20_retry_budget_example.
+
+(* ================================================================================================================ *)
+(* round 4: what the tasks of one graph are handed (shared, mutable, written = data race at any granularity)         *)
+Theorem C20_block_buffers_race_free :
+  forall (V : Type) (bind : nat -> nat -> ScratchRace.buf) (prog : nat -> list (ScratchRace.op V)),
+    ScratchRace.race_free V bind prog -> forall m0 sched t,
+    let c := ScratchRace.exec V bind prog m0 sched in
+    let r := ScratchRace.solo V bind prog m0 t (ScratchRaceP.count t sched) in
+    ScratchRace.c_th V c t = snd r /\ forall p, ScratchRace.touches V (prog t) p = true -> forall i, ScratchRace.c_mem V c (bind t p) i = fst r (bind t p) i.
+Proof. exact ScratchRaceP.race_free_solo. Qed.
+Print Assumptions C20_block_buffers_race_free.
+Theorem C20_graph_binding_race_free : forall V (bound : nat -> bool) (prog : nat -> list (ScratchRace.op V)),
+  (forall t p, ScratchRace.writes V (prog t) p = true -> bound p = false) -> ScratchRace.race_free V (ScratchRace.bind_graph bound) prog.
+Proof. exact ScratchRaceP.bind_graph_race_free. Qed.
+Print Assumptions C20_graph_binding_race_free.
+Theorem C20_block_args_read_only : ScratchRace.block_calls_ok c20_block_calls = true.
+Proof. exact ScratchRaceP.block_args_read_only. Qed.
+Print Assumptions C20_block_args_read_only.
+Theorem C20_block_tasks_any_interleaving : forall V c (prog : nat -> list (ScratchRace.op V)),
+  In c c20_block_calls -> (forall t, ScratchRace.respects c (prog t)) ->
+  forall m0 sched t,
+    let bind := ScratchRace.bind_graph (ScratchRace.call_bound c) in
+    let cf := ScratchRace.exec V bind prog m0 sched in
+    let r := ScratchRace.solo V bind prog m0 t (ScratchRaceP.count t sched) in
+    ScratchRace.c_th V cf t = snd r /\ forall p, ScratchRace.touches V (prog t) p = true -> forall i, ScratchRace.c_mem V cf (bind t p) i = fst r (bind t p) i.
+Proof. exact ScratchRaceP.block_tasks_any_interleaving. Qed.
+Print Assumptions C20_block_tasks_any_interleaving.
+Theorem C20_scale_weights_call_listed :
+  exists c, In c c20_block_calls /\ fst c = "vis_flags_weights.py:_scale_weights:blockwise:weight_power_scale"%string /\
+            map fst (snd c) = ["vis"; "weights"; "auto_indices"; "index1"; "index2"; "divide"]%string.
+Proof. exact ScratchRaceP.scale_weights_call_listed. Qed.
+Print Assumptions C20_scale_weights_call_listed.
+Theorem C20_kernel_written_params :
+  c20_kernel_written_params =
+  [("vis_flags_weights.py:weight_power_scale", ["out"]); ("applycal.py:_correction_inputs_to_corrprods", ["g_per_cp"]);
+   ("applycal.py:apply_vis_correction", []); ("applycal.py:apply_weights_correction", []);
+   ("applycal.py:apply_flags_correction", [])]%string.
+Proof. exact ScratchRaceP.kernel_written_params. Qed.
+Print Assumptions C20_kernel_written_params.
+Theorem C20_shared_scratch_refuted :
+  exists sched, ScratchRaceP.ex_out (fun p => p =? 2) sched 0 <> ScratchRaceP.ex_out (fun p => p =? 2) (filter (fun t => t =? 0) sched) 0 /\
+                ScratchRaceP.ex_out (fun _ => false) sched 0 = ScratchRaceP.ex_out (fun _ => false) (filter (fun t => t =? 0) sched) 0.
+Proof. exact ScratchRaceP.shared_scratch_refuted. Qed.
+Print Assumptions C20_shared_scratch_refuted.
+Example C20_private_scratch_example :
+  let sched := repeat 0 4 ++ repeat 1 4 ++ repeat 0 12 ++ repeat 1 12 in
+  ScratchRaceP.ex_out (fun _ => false) sched 0 = [4; 6; 9]%Z /\ ScratchRaceP.ex_out (fun _ => false) sched 1 = [25; 35; 49]%Z /\
+  ScratchRaceP.ex_out (fun p => p =? 2) sched 0 = [25; 35; 49]%Z.
+Proof. exact ScratchRaceP.private_scratch_example. Qed.
+Print Assumptions C20_private_scratch_example.
+
+(* round 4: a test made OUTSIDE a lock on state that is written UNDER it (recursion guard of the virtual sensors)       *)
+Theorem C20_guard_test_safe : forall pos want len, pos <> GuardTest.GOutside -> forall sched,
+  let c := GuardTest.gexec pos want len sched in
+  (forall t, GuardTest.g_th c t <> GuardTest.TRaised) /\
+  (forall t, GuardTest.g_th c t = GuardTest.TDone -> In (want t) (GuardTest.g_cached c)) /\
+  (GuardTest.g_holder c = None -> GuardTest.g_busy c = []) /\
+  (forall t, GuardTest.inside (GuardTest.g_th c t) = true <-> GuardTest.g_holder c = Some t).
+Proof. exact GuardTestP.guard_safe. Qed.
+Print Assumptions C20_guard_test_safe.
+Theorem C20_sensor_no_spurious_keyerror : forall want len sched,
+  let c := GuardTest.gexec GuardTest.sensor_guard_pos want len sched in
+  (forall t, GuardTest.g_th c t <> GuardTest.TRaised) /\
+  (forall t, GuardTest.g_th c t = GuardTest.TDone -> In (want t) (GuardTest.g_cached c)) /\
+  (GuardTest.g_holder c = None -> GuardTest.g_busy c = []) /\
+  (forall t, GuardTest.inside (GuardTest.g_th c t) = true <-> GuardTest.g_holder c = Some t).
+Proof. exact GuardTestP.sensor_no_spurious_keyerror. Qed.
+Print Assumptions C20_sensor_no_spurious_keyerror.
+Theorem C20_guard_test_outside_refuted :
+  exists sched, GuardTest.g_th (GuardTest.gexec GuardTest.GOutside (fun _ => 7) (fun _ => 2) sched) 1 = GuardTest.TRaised /\
+                GuardTest.g_th (GuardTest.gexec GuardTest.GOutside (fun _ => 7) (fun _ => 2) (filter (fun t => t =? 1) (sched ++ repeat 1 8))) 1 = GuardTest.TDone /\
+                GuardTest.g_th (GuardTest.gexec GuardTest.GInside (fun _ => 7) (fun _ => 2) (sched ++ repeat 0 8 ++ repeat 1 8)) 1 = GuardTest.TDone.
+Proof. exact GuardTestP.guard_outside_refuted. Qed.
+Print Assumptions C20_guard_test_outside_refuted.
+Example C20_guard_test_inside_example :
+  let c := GuardTest.gexec GuardTest.GInside (fun t => match t with 0 => 7 | 1 => 7 | _ => 9 end) (fun _ => 2)
+             ([0; 0; 0; 1; 2; 1; 0; 2] ++ repeat 0 8 ++ repeat 1 10 ++ repeat 2 10) in
+  GuardTest.g_th c 0 = GuardTest.TDone /\ GuardTest.g_th c 1 = GuardTest.TDone /\ GuardTest.g_th c 2 = GuardTest.TDone /\
+  GuardTest.g_busy c = [] /\ GuardTest.g_cached c = [9; 7].
+Proof. exact GuardTestP.guard_inside_example. Qed.
+Print Assumptions C20_guard_test_inside_example.
+Theorem C20_outside_lock_mentions_listed :
+  c20_outside_lock_mentions =
+  [("sensor", ["add_aliases:_raw"; "__iter__:_raw"; "__len__:_raw"]); ("concat", []); ("dask", []); ("spw", []); ("pool", [])]%string
+  /\ c20_guarded_derived =
+  [("sensor", ["_raw"; "timestamps"]); ("concat", []); ("dask", ["_dataset"; "_orig_dataset"]); ("spw", ["_channel_freqs"]);
+   ("pool", ["_pool"])]%string
+  /\ c20_sensor_get_pretests = [].
+Proof. exact GuardTestP.outside_lock_mentions_listed. Qed.
+Print Assumptions C20_outside_lock_mentions_listed.
